@@ -3,7 +3,7 @@
    ends, for every segmentation) is C07 / C06; here: the framing decision and the grammar of the head. *)
 From Coq Require Import List NArith ZArith Bool.
 From GV Require Import Base.Bytes Base.Scan Base.PyStr Gen.GenParser Model.Parser Spec.Rfc9112
-     Proof.Framing Proof.HeadGrammar Proof.HeadSound Proof.ParserHead Proof.ChunkedDecode Proof.ChunkedGrammar Proof.ParserRun Proof.ChunkedReader Proof.BodyFileThm.
+     Proof.Framing Proof.HeadGrammar Proof.HeadSound Proof.ParserHead Proof.ChunkedDecode Proof.ChunkedGrammar Proof.ParserRun Proof.ChunkedReader Proof.BodyFileThm Proof.BodySim Proof.EndToEnd.
 Import ListNotations.
 Local Open Scope N_scope.
 
@@ -104,6 +104,27 @@ Theorem C01_chunked_body_is_rfc : forall c s D after tr,
     decodes c (AStart s) D (DStop after tr) -> rfc_chunked s D after \/ after = [].
 Proof. exact chunked_body_is_rfc. Qed.
 Print Assumptions C01_chunked_body_is_rfc.
+
+(* the header list handed to the application IS the list of field lines of the block, in order, each split
+   at its first colon (name upper-cased, value stripped of SP / HTAB) - nothing merged, dropped or invented,
+   except the names with an underscore that the header_map policy withholds *)
+Theorem C01_accepted_headers_are_the_lines : forall c ft https data hs h,
+    permit_obsolete_folding c = false -> strip_header_spaces c = false ->
+    parse_headers c ft https data = inl (hs, h) ->
+    hs = filter (kept c ft) (map field_of_line (split_crlf data)).
+Proof. exact parse_headers_are_the_lines. Qed.
+Print Assumptions C01_accepted_headers_are_the_lines.
+
+(* head and body joined: for an accepted request (any segmentation of the stream), the head is a strict
+   RFC head of the stream, and the body the application will be given / the place where the next request
+   starts are those of the strict reading of the bytes behind the head: the next Content-Length bytes, or
+   the RFC 9112 7.1 decoding of the chunked stream (a malformed one ends in an exception, never in EOF) *)
+Theorem C01_accepted_request_end_to_end : forall c x n p r p1,
+    NE p -> safe_cfg c -> parse_request c x n p = inl (r, p1) ->
+    let k := snd (init_conn r p1) in
+    strict_head c (u_abs p) r (u_abs p1) /\ inv_c c k /\ body_denotes c r (u_abs p1) (alpha_c c k).
+Proof. exact accepted_request_end_to_end. Qed.
+Print Assumptions C01_accepted_request_end_to_end.
 
 (* ---- non-vacuity ---- *)
 Definition H_TE_gzip_chunked : list header := [(n_te, s_gzip ++ [44; 32] ++ s_chunked)].
